@@ -247,6 +247,10 @@ def extra_skeletons():
                 T.binop("Or", T.binop("Lt", cmp_field, L), T.binop("GtE", cmp_field, L)), T.unop("Not", T.binop("In", cmp_field, T.lst(L)))]
     for st in (T.Str("x"),):
         out += SC.string_position_terms(st, {"indexof": True, "concat": True})
+    # long in-lists (bind-variable budgets): 600 uniform literals
+    out.append(T.binop("In", n, T.lst(*[("Integer", INTS[0]) for _ in range(600)])))
+    out.append(T.binop("In", s, T.lst(*[("String", STRS[0]) for _ in range(600)])))
+    out.append(T.unop("Not", T.binop("In", g, T.lst(*[("GUID", GUIDS[0]) for _ in range(520)]))))
     # comparisons between two boolean expressions that both carry values (ORMs may turn one side into an annotation/alias)
     X, I1 = T.Str("x"), T.Int(0)
     c1, c2 = T.call("contains", s, X), T.call("startswith", g, X)
